@@ -8,11 +8,11 @@ the URL — any redirect graph), arbitrary `parse`/`join`, every attempt limit a
 Two clauses of the property do not hold for the code as it is (model parameter `fixed = false`, API `cmd`):
 
   * `redirect_relative`  — relative Locations are joined to the last *absolute* URL, not the current one
-                            (redirect.rs:111-124; key `redirect-relative-base`). Full statement
+                            (redirect.rs:111-122; key `redirect-relative-base`). Full statement
                             `redirect_relative fixed`; refuted for `false` (`redirect_relative_false`), proved for
                             every world without a relative hop after a relative hop (`redirect_relative_partial`),
                             and proved in full for the repaired loop (`redirect_relative_fixed`).
-  * `mw_all_apis`        — the command API never runs per-request middleware (command.rs:604-625; key
+  * `mw_all_apis`        — the command API never runs per-request middleware (command.rs:583-609; key
                             `command-api-ignores-middleware`). Refuted (`mw_all_apis_false`), proved for the two
                             capability APIs and for the empty stack (`mw_all_apis_partial`).
 
@@ -61,6 +61,12 @@ theorem mw_order_passThrough (w : World) (fixed : Bool) (client reqMw : List Mw)
     and the shell's answer is the result. -/
 theorem endpoint_once (w : World) (fixed : Bool) (req : Req) :
     run w fixed [] req = ([.shell req], w.srv req.url) := rfl
+
+/-- A request sent through the client a middleware is handed (`client.get(u).await`, the probes of Redirect) goes
+    straight to the shell, once: that client's stack is empty (client.rs:126-132). -/
+theorem endpoint_once_inner_client (w : World) (fixed : Bool) (u : Url) :
+    issued w fixed u none = ([.shell (getReq u)], w.srv u) ∧ send w fixed [] [] (getReq u) = issued w fixed u none :=
+  ⟨rfl, rfl⟩
 
 /-- A pass-through stack reaches the shell exactly once. -/
 theorem endpoint_once_passThrough (w : World) (fixed : Bool) (st : List Mw) (req : Req)
